@@ -169,6 +169,18 @@ def execute(case) -> Outcome:
                 vio.append(V(P, "forward-headers", f"{what}: forwarded header list {ex['headers']!r}, expected merge {merged!r}", mode=mode))
             if ex["body"] != exp_body:
                 vio.append(V(P, "forward-body", f"{what}: forwarded body {ex['body'][:40]!r}", mode=mode))
+        if case["second"] and len(outs) > 1 and outs[1]["exc"] is None:
+            # a second request on the (normally reused) forward connection carries the proxy headers merged beneath ITS OWN headers and nothing else
+            exs2 = [e for p_ in world.pipes for e in p_.peer.exchanges if e["token"] == "c1"]
+            if len(exs2) == 1:
+                caller2 = [(b"Host", host.encode() + (b":%d" % port if port is not None and port != DEFAULT_PORT[scheme] else b"")), (b"x-tok", b"c1"), (b"X-Second", b"CLH-second")]
+                cn2 = {n.lower() for n, _ in caller2}
+                merged2 = [(n, v) for n, v in pxh if n.lower() not in cn2] + caller2
+                got2 = sorted((n.lower(), v) for n, v in exs2[0]["headers"])
+                if got2 != sorted((n.lower(), v) for n, v in merged2):
+                    vio.append(V(P, "forward-headers-second-request", f"{what}: the second forwarded request carried {exs2[0]['headers']!r}, expected the merge "
+                                 f"{merged2!r} (headers of an earlier request must not reappear)", mode=mode))
+                tags.append("second-forwarded-request")
     elif kind in ("http", "https"):
         # ------------------------------------------------------------------ CONNECT tunnel
         mode = "tunnel"
